@@ -2,7 +2,7 @@
    (no `$`-rooted operand, no aggregate: none of these steps has one), the values `$` P Q returns from a document are the
    concatenation, in the order P reaches them, of the values `$` Q returns from each value P reaches; a value from which
    `$` Q fails contributes nothing; the whole fails exactly when nothing is left. *)
-From JP Require Import Peg Grammar Slice Text Tree Actions Json Eval WF Spec SortFacts EvalInv1 EvalInv4 EvalTop EndToEnd Codec KeyDefs KeyParse IdxParse SliceParse UnionParse WildParse RecParse ChainParse SpacePath FunParse AggParse FiltParse CmpParse NegFilt FiltChain ChainAddr FunAddr AggAddr FiltAddr CmpAddr FiltChainAddr SpecRootFree.
+From JP Require Import Peg Grammar Slice Text Tree Actions Json Eval WF Spec SortFacts EvalInv1 EvalInv4 EvalTop EndToEnd Codec KeyDefs KeyParse IdxParse SliceParse UnionParse WildParse RecParse ChainParse SpacePath FunParse AggParse FiltParse CmpParse NegFilt QueryParse FiltChain ChainAddr FunAddr AggAddr FiltAddr CmpAddr QueryAddr FiltChainAddr SpecRootFree.
 From Coq Require Import Lia.
 Open Scope list_scope.
 
@@ -61,7 +61,7 @@ Section C08Text.
   Notation nav_allf := (nav_allf parse_float).
 
   Lemma nav1f_vrel x l l' v : vrel (nav1f x (l, v)) (nav1f x (l', v)).
-  Proof. destruct x as [y|i|i o lit|i]; cbn [FiltChainAddr.nav1f]; [apply nav1r_vrel|apply navp_vrel|apply navp_vrel|apply navp_vrel]. Qed.
+  Proof. destruct x as [y|i|i o lit|i|d]; cbn [FiltChainAddr.nav1f]; [apply nav1r_vrel|apply navp_vrel|apply navp_vrel|apply navp_vrel|apply navp_vrel]. Qed.
 
   Lemma nav_allf_vrel q : forall lv lv', snd lv = snd lv' -> vrel (nav_allf q lv) (nav_allf q lv').
   Proof.
